@@ -100,7 +100,7 @@ package spynode
 //@   ensures member: result <==> exists(k, 0, len(list), list[k] == hash)
 
 //@ func removeHash
-//@   serves C03
+//@   serves C03 C11
 //@   loop 0 invariant 0 <= _i && _i <= len(list) && forall(k, 0, _i, list[k] != hash)
 //@   ensures found: result0 ==> exists(k, 0, len(list), old(list[k]) == hash)
 //@   ensures absent: !result0 ==> forall(k, 0, len(list), list[k] != hash) && result1 == list
@@ -113,7 +113,7 @@ package spynode
 // (the mempool calls are summarised by their frames here: what RemoveTransaction and Conflicting do
 // to the conflict index is specified on those functions themselves, C05 / C06)
 //@ func (*Node).ProcessBlock
-//@   serves C02 C04 C06 C03
+//@   serves C02 C04 C06 C03 C11
 //@   opt nomonitor = 1
 //@   opt partial = 1
 //@   opt abstract = SaveTxState FetchTxState fetchSpentOutputs CleanupBlock RemoveTransaction Conflicting
@@ -140,6 +140,7 @@ package spynode
 //@        && handlersstorage.Hdr(node.blocks, node.blocks.height) == header
 //@   assert proof_only_for_deliverable at call AddMerkleProof : [C03] arg1 == TxHashOf(tx) && (inUnconfirmed || (!inMemPool && Relevant(tx)))
 //@   assert skipped_are_irrelevant_or_seen at call TxRepository.Remove : [C03] !inUnconfirmed && !inMemPool && !Relevant(tx)
+//@   assert untracked_means_not_in_unconfirmed_set at call IsReady loop 0 : [C03 C11] !inUnconfirmed ==> forall(k, 0, len(unconfirmed), unconfirmed[k] != TxHashOf(tx))
 //@   assert new_means_first_seen at call HandleTx loop 5 : [C03] txsIsNew[i]
 //@   assert update_means_delivered_before at call HandleTxUpdate loop 6 : [C03] !txsIsNew[i]
 //@   assert cancels_loser at call HandleTxUpdate loop 3 : [C06] arg2.TxID == confHash && arg2.State.UnSafe && arg2.State.Cancelled
